@@ -56,7 +56,7 @@ impl Visitor for SuspiciousReverseLoopVisitor {
                 ..
             } = node.start();
             if let ast::Expression::Number(number) = node.end();
-            if str::parse::<f32>(&number.token().to_string()).ok() <= Some(1.0);
+            if matches!(str::parse::<f32>(&number.token().to_string()), Ok(end) if end <= 1.0);
             then {
                 self.positions.push((
                     node.start().start_position().unwrap().bytes(),
